@@ -245,6 +245,15 @@ def setLastMeasurement (q bit : Int) : EM Unit := modify fun st =>
   if q ≥ 0 && q < st.lastMeasurement.length then { st with lastMeasurement := setNth st.lastMeasurement q.toNat bit }
   else st
 
+/-- one measurement as every access path performs it: guard, simulator measurement with the next draw, set the
+measured flag, remember the outcome; the value is what a measure *expression* returns -/
+def measureQubit (q : Int) (p : P) : EM Value := do
+  ensureQubitActive q p
+  let bit ← simMeasure q
+  markMeasured q
+  setLastMeasurement q bit
+  pure (mkBit bit)
+
 /-! ### operators -/
 
 def isObjectLike (v : Value) : Bool := v.type == .Object || v.type == .ClassRef
@@ -673,11 +682,7 @@ def eval (fuel : Nat) (e : Expr) : EM Value :=
       | _ => pure {}
     | .measure q p => do
       let qv ← eval fuel q
-      ensureQubitActive qv.qubit p
-      let bit ← simMeasure qv.qubit
-      markMeasured qv.qubit
-      setLastMeasurement qv.qubit bit
-      pure (mkBit bit)
+      measureQubit qv.qubit p
     | .index coll idx p => do
       let cv ← eval fuel coll
       let iv ← eval fuel idx
@@ -805,10 +810,7 @@ def measureAll (fuel : Nat) (qs : List Int) (p : P) : EM Unit :=
     match qs with
     | [] => pure ()
     | qid :: rest => do
-      ensureQubitActive qid p
-      let bit ← simMeasure qid
-      markMeasured qid
-      setLastMeasurement qid bit
+      let _ ← measureQubit qid p
       measureAll fuel rest p
 
 /-- `RuntimeEvaluator::exec` -/
@@ -918,10 +920,7 @@ def exec (fuel : Nat) (s : Stmt) : EM Unit :=
       let qv ← eval fuel q
       if qv.type == .QubitArray then measureAll fuel qv.qubitArray p
       else
-        ensureQubitActive qv.qubit p
-        let bit ← simMeasure qv.qubit
-        markMeasured qv.qubit
-        setLastMeasurement qv.qubit bit
+        let _ ← measureQubit qv.qubit p
     | .destroy _ _ => throw (.unsupported "destroy")
     | .assign name v _ => do
       let val ← eval fuel v
